@@ -38,7 +38,7 @@ CLAUSES = {
     "C01": {("C01", "conservation")},
     "C06": {("C06", "no_overdraft"), ("C06", "grant_affordable")},
     "C02": {("C02", "exactly_once"), ("C02", "record_identity"), ("C02", "opening_time"),
-            ("C02", "cause_partial"), ("C02", "cause_normal")},
+            ("C02", "cause_partial"), ("C02", "cause_normal"), ("C02", "file_matches_records")},
     "C03": {("C03", "file_well_formed"), ("C03", "record_within_limit")},
     "C10": {("C10", "ref_unique"), ("C10", "ref_designates")},
     "C12": {("C12", "create_contract"), ("C12", "update_contract"), ("C12", "release_contract"),
